@@ -60,7 +60,11 @@ def convert_data_attributes(ns_attrs, attrs, namespaces) -> None:
             if '-' not in name:
                 continue
             prefix, name = name.split('-', 1)
-            ns_attrs[namespaces[prefix], name] = attr['value']
+            namespace = namespaces.get(prefix)
+            if namespace not in (TAL, METAL, I18N, META):
+                # an ordinary data attribute (e.g. data-foo-bar)
+                continue
+            ns_attrs[namespace, name] = attr['value']
             attrs.pop(i - d)
             d += 1
 
